@@ -5,7 +5,7 @@
 (* Names is chosen for git's order: a directory "a" sorts as "a/", i.e.      *)
 (* behind "a.b" but before "a0", a file "a" before both.                     *)
 EXTENDS TreeDiff, SequencesExt, Json, TLC
-CONSTANTS Names, Wide
+CONSTANTS Names, Level    \* Level: 0 = small, 1 = quick, 2 = wide alphabets of entries
 
 L(k, id) == [k |-> k, id |-> id]
 LeavesQuick == {L("blob", 1), L("blob", 2), L("exe", 1), L("link", 1), L("commit", 3)}
@@ -15,8 +15,10 @@ SubsQuick == { {R(<<"x">>, "blob", 1)}, {R(<<"x">>, "blob", 2)}, {R(<<"x">>, "bl
                {R(<<"y">>, "exe", 1)}, {R(<<"x", "x">>, "blob", 1)} }
 SubsWide == SubsQuick \cup { {R(<<"x", "x">>, "blob", 2)}, {R(<<"x">>, "blob", 1), R(<<"x.y", "x">>, "link", 1)},
                               {R(<<"x">>, "commit", 3), R(<<"y">>, "blob", 2)} }
-Leaves == IF Wide THEN LeavesWide ELSE LeavesQuick
-Subs == IF Wide THEN SubsWide ELSE SubsQuick
+LeavesSmall == {L("blob", 1), L("exe", 1), L("commit", 3)}
+SubsSmall == { {R(<<"x">>, "blob", 1)}, {R(<<"x">>, "blob", 2)} }
+Leaves == CASE Level = 0 -> LeavesSmall [] Level = 1 -> LeavesQuick [] OTHER -> LeavesWide
+Subs == CASE Level = 0 -> SubsSmall [] Level = 1 -> SubsQuick [] OTHER -> SubsWide
 
 \* what one name can hold: nothing, a leaf, a directory
 Options(n) == {{}} \cup {{R(<<n>>, l.k, l.id)} : l \in Leaves}
